@@ -98,6 +98,8 @@ def main(argv=None):
     samples = []
     stats = Counter()
     notes = []
+    reach = {}
+    contract_evals = Counter()
     for r, out in zip(runs, outs):
         if r["status"] != "ok" or not os.path.exists(out):
             inconclusive.append(f"shard {r['shard']} {r['status']}: {r['log'][-600:]!r}")
@@ -112,6 +114,15 @@ def main(argv=None):
             samples.extend(res["samples"][: 6 - len(samples)])
         stats.update(res["stats"])
         notes.extend(res["notes"])
+        contract_evals.update(res.get("contract_evaluations", {}))
+        for a, v in res.get("reach", {}).items():
+            if isinstance(v, dict):
+                cur = reach.setdefault(a, {"calls": 0, "lines_hit": 0, "lines_total": v["lines_total"]})
+                if isinstance(cur, dict):
+                    cur["calls"] += v["calls"]
+                    cur["lines_hit"] = max(cur["lines_hit"], v["lines_hit"])
+            else:
+                reach.setdefault(a, v)
     for f in outs:
         if os.path.exists(f):
             os.remove(f)
@@ -129,6 +140,9 @@ def main(argv=None):
             inconclusive.append(f"counter {name}={got} below floor {floor}")
     if len(nontrivial) < 2:
         inconclusive.append("fewer than 2 distinct non-trivial cases")
+    for a, v in reach.items():
+        if isinstance(v, dict) and v["calls"] == 0:
+            inconclusive.append(f"anchored mechanism {a} exists but was never entered")
 
     # ---- known findings ----------------------------------------------------
     findings = [f for f in load_findings() if f.get("property") == prop]
@@ -178,6 +192,8 @@ def main(argv=None):
             "exhaustive": False,
             "exhaustive_subspaces": getattr(mod, "EXHAUSTIVE_SUBSPACES", {}).get(tier, []),
             "observed": {k: int(v) for k, v in sorted(stats.items())},
+            "contract_evaluations": {k: int(v) for k, v in sorted(contract_evals.items())},
+            "anchors_reached": reach,
             "shards": nshards,
             "shard_status": [r["status"] for r in runs],
             "violation_counts_by_mechanism": dict(viol_counts),
